@@ -67,6 +67,38 @@ CLAIMED = {
             'Known finding K3 (S3 filters the JSON text of the metadata) is transcribed in the model, hypothesised away in '
             'C10_same_set, exhibited by C10_k3_counterexample and witnessed in the corpus. Time windows are C16. Trusted: fake S3, '
             'filesystem, jsonpickle round trip of metadata, fnmatch parameter.', 'DESIGN.md 6/C10'),
+    'C08': ('Lean 4 theorems over a hand-written parent/worker protocol state machine of Equalizer (per-epoch queues, recycle, '
+            'bounded poll loop, death detection, kill and forget), tied to /repo by differential execution of scripted players '
+            'in real worker processes, one subprocess per sequence',
+            'Kernel-checked: for every id sequence, behaviour assignment, recycle rate, timeout and keep flag, the dedicated-'
+            'process run equals the list of per-recording verdicts alone (count, order, label, status, message, replay, kept '
+            'results); a fault changes only its own comparison; in-process and dedicated runs are equal on behaviours '
+            'meaningful in both; the pre-fix shared queue is refuted by decide. The correspondence check runs the real '
+            'Equalizer and the model on the same sequences on every run.',
+            'Partial for runtime: multiprocessing pipes, feeder threads and signals are exercised, not proved. Trusted: Lean '
+            'kernel; the model is tied by differential execution only; time is abstracted to the parent\'s 1 s polls; late is '
+            'realised by a harness subclass delaying _kill_compare_process; realised timing re-read from logged timestamps.',
+            'DESIGN.md 6/C08'),
+    'C13': ('Same Equalizer protocol model extended with process liveness, busy set, served counts, join log, polls log and '
+            'finish / stateAfter k; Lean 4 theorems by induction over the task list; tied to /repo by scripted runs observing '
+            'wall time per comparison, worker pid per task and live non-zombie children after complete, closed and aborted '
+            'consumption',
+            'Kernel-checked: the wait is at most floor(timeout)+1 polls (1 when answered); after a hang, death or late answer '
+            'the worker is forgotten and the next recording gets a brand-new idle worker and its own verdict; tasks per worker '
+            '<= max(rate,1); every join is of an idle worker; after completion, early close or consumer abort at any k, finish '
+            'leaves no live worker.',
+            'Partial for OS behaviour. Assumes SIGKILL kills, an idle worker sees the terminate event, and CPython finalises an '
+            'abandoned generator by reference counting. Wall-time bounds carry 5 s of slack; a time-out of the machinery is '
+            'exit 2.', 'DESIGN.md 6/C13'),
+    'C19': ('Lean 4 theorems over a model of PlaybackStudio.play, grouping by category, per-category tuning and '
+            'find_matching_recording_ids on top of the Equalizer model, tied to /repo by differential execution of the real '
+            'studio over really recorded operations on in-memory, file and fake-bucket S3 cassettes',
+            'Kernel-checked: categories are reported sorted (explicit) or in first-occurrence order (lookup); played ids are a '
+            'permutation of the given ids, each in its own category\'s group; each comparison is that category\'s tuning applied '
+            'to that recording alone; a failing tuner changes only its own entry; lookup-driven runs play exactly the lookup of '
+            'category k; any interleaving of next calls yields per-category prefixes of the sequential runs.',
+            'Trusted: category names are mapped to ranks in Python string order; fake_s3 stands in for S3; lookup-driven runs '
+            'are compared per category as sets with no limit set; the tie runs in-process mode only.', 'DESIGN.md 6/C19'),
 }
 
 NOT_YET = 'check not built yet in this round (work in progress; see DESIGN.md section 6 for the planned proof and tie)'
